@@ -56,6 +56,7 @@ func (e *Engine) intrinsics() map[string]externalFn {
 			}
 			return nil
 		},
+		sym + ".Stdout": func(fr *frame, args []value) value { return strings.Join(fr.i.path.stdout, "") },
 		sym + ".Quiesce":   func(fr *frame, args []value) value { fr.i.sch.quiesce(); return nil },
 		sym + ".Opaque": func(fr *frame, args []value) value {
 			s, ok := args[0].(string)
